@@ -110,3 +110,16 @@ type Other struct {
 	sod.Item
 	A int
 }
+
+// Named: a collection whose struct has fields of NAMED basic types (an enum, a time.Duration): their
+// Go type names are part of the field descriptors written to schema.json, hence of the persistent
+// format (C18). Not indexed: the pinned release cannot index values of named types.
+type Severity int
+
+type Named struct {
+	sod.Item
+	Sev   Severity
+	Dur   time.Duration
+	Label string
+	Tags  []Severity
+}
